@@ -61,7 +61,7 @@ def datafit_specs(dname, X, tier):
         return [dict(name=dname, sample_weights=[1.0, 2.0, 1.0, 3.0, 2.0, 1.0, 4.0, 1.0][:n]),
                 dict(name=dname, sample_weights=[0.5, 0.25, 0.5, 0.125, 0.25, 0.5, 0.125, 0.25][:n])]
     if dname == "Huber":
-        return [dict(name=dname, delta=1.0)]
+        return [dict(name=dname, delta=1.0), dict(name=dname, delta=0.5)]          # (delta = 1 hides a forgotten factor delta)
     if dname == "Cox":
         return [dict(name=dname, use_efron=False), dict(name=dname, use_efron=True)]
     if dname == "Pinball":
